@@ -363,7 +363,7 @@ def mem_case(draw):
     errors = draw(st.lists(st.integers(0, 12), max_size=2, unique=True)) if mode in ('errors', 'mixed') else []
     drop = None
     if mode in ('drop', 'mixed') and draw(st.booleans()) or mode == 'drop':
-        drop = {'k': draw(st.integers(1, 24)), 'reporter': draw(st.sampled_from(['driver', 'sender']))}
+        drop = {'k': draw(st.integers(1, 24)), 'reporter': draw(st.sampled_from(['driver', 'sender', 'driver-quiet']))}
     return {'sizes': sizes, 'ops': ops, 'needs_resending': resend,
             'policy': {'delays': delays, 'dups': dups, 'errors': errors, 'dup_gap': draw(st.sampled_from([0.0001, 0.002, 0.3]))},
             'drop': drop, 'schedule': draw(_sched), 'asap': draw(st.booleans())}
@@ -379,7 +379,7 @@ def drop_sweep_cases(tier):
          {'op': 'write', 'mem': 1, 'addr': 10, 'len': 51, 'seed': 3, 'flush': True, 'gap': 0}],
     ]
     for h in hist:
-        for rep in ('driver', 'sender'):
+        for rep in ('driver', 'sender', 'driver-quiet'):
             for k in range(1, 18 if tier == 'quick' else 30):
                 yield {'sizes': [128, 128], 'ops': h, 'needs_resending': False,
                        'policy': {'delays': [], 'dups': [], 'errors': [], 'dup_gap': 0.001}, 'drop': {'k': k, 'reporter': rep},
